@@ -197,7 +197,17 @@ def run(ctx):
             lits = Ff.literals_at(eqs[0].bb)
             lenchk = any(l[0] == 'cmp' and l[1] == 'eq' and l[2][0] == 'len' for l, e in lits)
             hm = any(l[0] == 'truth' and l[2] is False and 'is_err' in fmt_sym(fb, l[1]) for l, e in lits) or any(l[0] == 'variant' and l[2] == 'Ok' for l, e in lits) or any(l[0]=='variant' and l[2]=='Err' and not l[3] for l,e in lits)
-            if lenchk and eqs[0].dest[0] == 0:
+            # whole signature against the whole computed digest: no sub-slice on either side, the buffer is the digest-size array
+            a0 = fmt_sym(fb, Ff.sym_operand(eqs[0].args[0])); a1 = fmt_sym(fb, Ff.sym_operand(eqs[0].args[1]))
+            whole = re.match(r'^&\(\*signature\(_\d+\)\)$', a0) and re.match(r'^&\*?(Index::index\(&tmp_signature\(_\d+\), RangeFull::RangeFull\)|tmp_signature\(_\d+\))$', a1)
+            size_const = 'SHA1_SIZE' if fn.endswith('sha1') else 'SHA256_SIZE'
+            want = {'SHA1_SIZE': 20, 'SHA256_SIZE': 32}[size_const]
+            arr = [t for t in fb.locals if re.match(r'^\[u8; %d\]$' % want, t)]
+            lenlit = any(l[0] == 'cmp' and l[1] == 'eq' and l[2][0] == 'len' and Ff.const_int(l[3]) == want for l, e in lits)
+            if not whole or not arr or not lenlit:
+                r.fail(rule, key, '%s does not compare the whole %d-byte signature with the whole computed digest (compares %s with %s; digest buffer %s; length test %s): '
+                       'altering the uncompared tail of a signature goes unnoticed' % (fn, want, a0[:50], a1[:70], bool(arr), lenlit), loc=fb.loc)
+            elif lenchk and eqs[0].dest[0] == 0:
                 r.ok(rule, key, 'the boolean result is openssl::memcmp::eq(signature, computed) after the length check' + ('' if hm else ' (hmac result edge not recognised)'), loc=fb.loc)
             else:
                 r.fail(rule, key, 'signature comparison is not the function result or not preceded by the length check', loc=fb.loc)
